@@ -90,7 +90,7 @@ class Assembler:
                 if only is not None and it.get('path', it.get('in')) not in only:
                     continue
                 if 'path' in it and re.search(r'(^|::)\s*fn \w+$', it['path']) and (it.get('ensures') or it.get('requires')) and not it.get('assumed'):
-                    it = {'file': it['file'], 'path': it['path'], 'contract_from': inc['unit']}
+                    it = dict({k_: it[k_] for k_ in ('mut_self', 'mut_params') if k_ in it}, file=it['file'], path=it['path'], contract_from=inc['unit'])
                 if inc.get('module'):
                     it['_module'] = inc['module']
                 inc_items.append(it)
@@ -524,6 +524,29 @@ class Assembler:
         self.fired.add('18:closure-lifting')
         return head + txt + body
 
+    def mut_refs(self, s, fp, ed, spec, fnname):
+        # 19: interior-mutable receiver / parameter as `&mut`: a type whose methods mutate through `&self` (a RocksDB
+        # transaction handle) gives Verus no way to say that a call changed it.  `mut_self = true` rewrites the receiver
+        # `&self` to `&mut self`, `mut_params = ["txn"]` rewrites `txn: &T` to `txn: &mut T`; nothing else changes, and rustc's
+        # borrow checker (inside Verus) rejects the text if the body ever holds two of these borrows at once.
+        if spec.get('mut_self'):
+            k = fp.k_popen + 1
+            if s.is_p(k, '&') and s.is_id(k + 1, 'self'):
+                ed.insert(s.t[k][2], 'mut ')
+                self.fired.add('19:interior-mutable-as-mut-ref')
+            elif not (s.is_p(k, '&') and s.is_id(k + 1, 'mut')):
+                raise ExtractError('lost anchor: fn %s has no `&self` receiver' % fnname)
+        for pn in spec.get('mut_params', []):
+            found = False
+            for k in range(fp.k_popen + 1, fp.k_pclose):
+                if s.is_id(k, pn) and s.is_p(k + 1, ':') and s.is_p(k + 2, '&') and (s.is_p(k - 1, '(') or s.is_p(k - 1, ',')):
+                    if not s.is_id(k + 3, 'mut'):
+                        ed.insert(s.t[k + 2][2], 'mut ')
+                    found = True
+                    self.fired.add('19:interior-mutable-as-mut-ref')
+            if not found:
+                raise ExtractError('lost anchor: fn %s has no reference parameter %s' % (fnname, pn))
+
     def fn_edits(self, s, item, ed, spec, fnname, is_canary):
         fp = FnParts(item)
         if fp.k_body_open is None:
@@ -545,6 +568,7 @@ class Assembler:
             self.in_assumed = True
             self.fn_contract(s, fp, ed, spec, fnname, False)
             self.in_assumed = False
+            self.mut_refs(s, fp, ed, spec, fnname)
             # a `mut` binding on a by-value parameter is invisible to callers; Verus rejects `mut self`, so it is dropped
             # from the signature of a function whose body is not verified here
             for k in range(fp.k_popen + 1, fp.k_pclose):
@@ -567,6 +591,7 @@ class Assembler:
                 if s.is_id(k, 'self'):
                     ed.replace(s.t[k][1], s.t[k][2], 'verif_self')
             self.fired.add('17:mut-self-receiver')
+        self.mut_refs(s, fp, ed, spec, fnname)
         self.body_edits(s, fp, ed)
         loops = fp.loops()
         for lp in spec.get('loop', []):
@@ -662,10 +687,20 @@ class Assembler:
         # text is the anchor itself (token-exact), so any change to it loses the anchor (undecided), and the abstraction is
         # listed with the assumed contracts in the evidence
         for ab in spec.get('abstract', []):
-            ka, kb = fp.find_stmt(ab['expr'], ab.get('n', 0))
+            if 'let' in ab:
+                # `let = "name"`: the whole initializer of `let name = <expr>;` (the replaced text is pinned by its hash in
+                # the ledger like every assumed contract, so an edit inside it is undecided, never silently ignored)
+                k0, k1 = fp.find_stmt('let %s =' % ab['let'], ab.get('n', 0))
+                ka = k1 + 1
+                kb = fp.stmt_end(ka) - 1
+                if kb < ka or not s.is_p(kb + 1, ';'):
+                    raise ExtractError('lost anchor: initializer of `let %s` in fn %s' % (ab['let'], fnname))
+            else:
+                ka, kb = fp.find_stmt(ab['expr'], ab.get('n', 0))
             orig = s.text[s.t[ka][1]:s.t[kb][2]]
             ed.replace(s.t[ka][1], s.t[kb][2], ab['as'])
-            self.assumed.append({'function': '%s :: expression `%s` abstracted as %s' % (fnname, re.sub(r'\s+', ' ', orig)[:160], ab['as'].split('(')[0].strip()),
+            what = ('initializer of `let %s`' % ab['let']) if 'let' in ab else ('expression `%s`' % re.sub(r'\s+', ' ', orig)[:160])
+            self.assumed.append({'function': '%s :: %s abstracted as %s' % (fnname, what, ab['as'].split('(')[0].strip()),
                                  'sha256': hashlib.sha256(re.sub(r'\s+', ' ', orig).encode()).hexdigest(), 'proved_in': None})
             self.fired.add('15:abstract-expression')
         for nf in spec.get('nested', []):
